@@ -74,10 +74,13 @@ than `img.length < 2^63`:
    the `load` family's driver executes and check.py compares with the real accessors; relocation / array / versym
    are the C11 / C14 models applied to the section `secResident` hands out).  Each theorem has an `example` on a
    744-byte image (`ComposeTables.exImg`, built by an independent script) with all these tables.
-   NOT done: modinfo, verneed/verdef, by-name/by-value symbol lookup, hash tables (their family theorems apply to
-   the `SecReady` section in the same way); the `TQ.runQuery` wrappers of C18's model for relGet/arrGet/versymGet
-   (they add a null-data guard that is false on a ready section); notes are characterised by "bytes = encodeNotes ns"
-   (no decoder-side totality: a malformed note section is C13.get_note_total / C01).
+     tq_reports_spec        the relocation / array / versym read-outs also through C18's query model
+                            `TQ.runQuery o (.relGet | .arrGet | .versymGet …)` (the null-data guards of the C18 fixes
+                            are false on a ready file-occupying section: `tq_relGet_eq`)
+     section_query_keeps_segs   the section queries leave the segments alone (so `SegsFrom` survives them)
+   NOT done: modinfo, verneed/verdef, by-name/by-value symbol lookup, hash tables, relocation get_entry with symbol
+   resolution (their family theorems apply to the `SecReady` section in the same way); notes are characterised by
+   "bytes = encodeNotes ns" (no decoder-side characterisation: a malformed note section is C13.get_note_total / C01).
  * not covered by proof (correspondence only): that Model/IStream.lean is libstdc++ and that
    Model/Load.lean is ELFIO's loader (differential check below); images with an address
    translation table (C15).
@@ -112,7 +115,8 @@ THEOREMS = ["ElfioVerif.C02.layouts_eq_spec", "ElfioVerif.C02.shdr_fields_eq_spe
             "ElfioVerif.ComposeTables.strings_reports_spec", "ElfioVerif.ComposeTables.symbols_reports_spec",
             "ElfioVerif.ComposeTables.reloc_reports_spec", "ElfioVerif.ComposeTables.dynamic_reports_spec",
             "ElfioVerif.ComposeTables.notes_reports_spec", "ElfioVerif.ComposeTables.segment_notes_reports_spec",
-            "ElfioVerif.ComposeTables.array_reports_spec", "ElfioVerif.ComposeTables.versym_reports_spec"]
+            "ElfioVerif.ComposeTables.array_reports_spec", "ElfioVerif.ComposeTables.versym_reports_spec",
+            "ElfioVerif.ComposeTables.tq_relGet_eq", "ElfioVerif.ComposeTables.tq_reports_spec"]
 EXTRA_IMPORTS = ["ElfioVerif.Props.Compose", "ElfioVerif.Props.ComposeTables"]
 SITES = ["conv", "is_sect_in_seg", "load_s", "sec32_load", "sec64_load", "seg32_load", "seg64_load"]
 RULE = ("well-formed images from the independent encoder tools/elfspec.py (random models: 1-9 sections, 0-4 "
